@@ -259,6 +259,22 @@ CLAIMED = {
         "hand-written matcher (validated against `re`); re-encodability for Rooms-based codecs rests on the correspondence.",
         "Lean 4 theorems (totality by structural induction, partial re-encodability) + differential correspondence on malformed input",
         "DESIGN.md §5 C17"),
+    "C16": (
+        "Kernel-checked theorems for all problems of each module's format and all board sizes (non-square, 1xN, 1x1 included): URL "
+        "round trips deserialize_<p>(serialize_<p>(pb)) = pb with height/width recovered for nurikabe, masyu, slitherlink, sudoku, "
+        "nurimisaki, yajilin (all clue kinds), heyawake, lits, norinori (any order of rooms and cells; canonical form; clues stay "
+        "attached) -- as instances of the C15 theorems on the REGENERATED combinator terms -- and compass parse(to(pb)) = pb; the URL "
+        "frame prefix name/width/height/body and get_puzzle_info_from_url = (name, height, width); an INDEPENDENT decoder of the pzpr "
+        "encodings (number16, border bitmaps, 4-cell, base-3 circles, arrow-number, star-battle and aquarium bodies) reads every "
+        "produced body back as the same problem (12 modules); the legacy encoders encode_array / encode_grid_segmentation produce the "
+        "same text as the combinator codecs on identical data (with the exact domain of agreement). Tie: random problems per module "
+        "through the real functions vs the model and the pzpr decoder (Lean and a plain-Python twin).",
+        "Trusted: Lean kernel + standard axioms; the pzpr format as written in Spec/Pzpr.lean from its public description (pzpr's "
+        "source is not available offline; unsure points are marked UNSURE there: the '/' in aquarium bodies, outside-number order, "
+        "compass token order); CPython's 4300-digit int limit as an explicit hypothesis; hand-written codec model tied by "
+        "correspondence.",
+        "Lean 4 theorems (corollaries of the C15 round trips + independent pzpr decoders) + differential correspondence",
+        "DESIGN.md §5 C16"),
 }
 
 NOT_YET = "machinery for this property is still under construction in this round (model/theorems not yet committed)"
